@@ -103,7 +103,7 @@ impl Fault {
 /// hostile expression source: grammar-derived, mutated, or a known nasty one
 fn hostile(t: &mut Tape) -> String {
     match t.below(10) {
-        0 => (*t.pick(&["i1 = i1", "arr[arr]", "x =", "/[=", "7 % 0", "abs(-9223372036854775808)", "m1.e2", "[arr, 1] == arr", "((((((((((1))))))))))", "nosuch", "'unterminated", "1 +"])).to_string(),
+        0 => (*t.pick(&["i1 = i1", "arr[arr]", "x =", "/[=", "7 % 0", "abs(-9223372036854775808)", "m1.e2", "[arr, 1] == arr", "((((((((((1))))))))))", "nosuch", "'unterminated", "1 +", "m1.k = m1", "arr[0] = arr", "arr = [arr, arr]", "m1.k = {'k': m1}", "arr.push(arr)", "m1.k.k = m1"])).to_string(),
         1..=4 => {
             let e = gen_expr(t, &GenCfg { max_size: 12, assignments: true });
             render(&e, &mut Lex::canonical())
